@@ -629,6 +629,9 @@ def family(prop, t, sd):
     if prop == 'C05':
         # degenerate / cycling LPs: "the simplex-based solvers always reach one of the three verdicts"
         specs += degenerate_family() + cycling_family()
+        # 4..7-variable knapsack-like MILPs (branch-and-bound trees with more than a handful of nodes)
+        import c15
+        specs += c15.knapsacks(33 if t == 'quick' else 330 + sd, 150 if t == 'quick' else 1500)
     if prop in ('C13', 'C05', 'C14'):
         specs += compiled_continuous_models(t)
     lim = os.environ.get('VERIF_LIMIT')
@@ -798,7 +801,7 @@ def main(prop):
             'must_fail_twins': {'tried': tw[0], 'detected': tw[1]}, 'pivot_steps_checked': steps, 'other_error_kinds_seen': other_errors,
             'samples': [it['lm'] for it in items[:: max(1, len(items) // 5)][:5]],
             'exhaustive': False,
-            'family': 'L(n,m): exhaustive n+m<=3 on a reduced alphabet (subsampled in the quick tier) + seeded n,m<=3 (+ degenerate/cycling-style LPs for C14)',
+            'family': 'L(n,m): exhaustive n+m<=3 on a reduced alphabet (subsampled in the quick tier) + seeded n,m<=3; degenerate and classical cycling LPs (C14, C05); 4..7-variable knapsack MILPs (C05); linear models compiled by the real linearizer from continuous source models',
             'functions_encoded': {'C13': ['LinearModel::into_standard_form / to_standard_form / normalize_constraint / EqualityConstraint::new (real run, output encoded)'],
                                   'C05': ['solve_milp_lp_problem', 'auto_solver', 'solve_real_lp_problem_micro_lp', 'solve_real_lp_problem_clarabel', 'solve_real_lp_problem_slow_simplex'],
                                   'C14': ['StandardLinearModel::into_tableau (incl. two-phase start)', 'Tableau::step', 'Tableau::solve_step_by_step']}[prop],
